@@ -48,7 +48,7 @@ JOB_OPTS = {'quick': dict(max_paths=3000, max_seconds=400), 'thorough': dict(max
 ALPHA = [['W', 0, 'ALL'], ['W', 1, 'ALL'], ['R', 0, 'ALL'], ['G', 'Rx180', [0]], ['M', 1, 'a']]
 ALPHA_IN = [['W', 0, 'ALL'], ['W', 1, 'ALL'], ['R', 0, 'ALL']]
 OBS = ['ops', 'times', 'dur', 'acq', 'vis', 'plot', 'stim', 'nest']
-MUT = ['add', 'addsub', 'apply', 'flatten', 'setreg', 'enter', 'leave']
+MUT = ['add', 'addsub', 'grow', 'apply', 'flatten', 'setreg', 'enter', 'leave']
 
 
 def jobs(tier, seed):
@@ -73,6 +73,13 @@ def jobs(tier, seed):
     for events in (['acq', 'apply'], ['ops', 'acq', 'apply'], ['stim', 'apply'], ['acq', 'add', 'apply']):
         for final in ('times', 'stim'):
             out.append({'prog': meas_block, 'events': events, 'final': final, 'name': 'acquisition indices read before a repeated block with a measurement is unrolled'})
+    deep = {'steps': [{'k': ['S', {'steps': [{'k': ['S', {'steps': [{'k': ['W', 0, 'ALL'], 'rel': None}], 'rep': 3}], 'rel': None}, {'k': ['W', 0, 'ALL'], 'rel': None}]}], 'rel': None},
+                      {'k': ['W', 0, 'ALL'], 'rel': None}]}
+    one_sub = {'steps': [{'k': ['S', {'steps': [{'k': ['W', 0, 'ALL'], 'rel': None}]}], 'rel': None}, {'k': ['W', 0, 'ALL'], 'rel': None}]}
+    for prog in (deep, one_sub):
+        for events in (['dur', 'apply'], ['times', 'apply'], ['dur', 'grow'], ['ops', 'grow'], ['times', 'grow', 'dur'], ['acq', 'grow']):
+            for final in ('duration_only', 'times', 'retained'):
+                out.append({'prog': prog, 'events': events, 'final': final, 'name': 'a relation-less nested block grows after a time was read'})
     for _ in range(n_pairs):
         kind = rng.random()
         if kind < 0.35:
@@ -101,7 +108,7 @@ def jobs(tier, seed):
             events.append(rng.choice(OBS) if rng.random() < 0.55 else rng.choice(MUT))
         if not any(e in OBS for e in events):
             events.insert(rng.randrange(len(events) + 1), rng.choice(OBS))
-        out.append({'prog': prog, 'events': events, 'final': rng.choice(['times', 'times', 'nest', 'unrolled', 'stim', 'retained'])})
+        out.append({'prog': prog, 'events': events, 'final': rng.choice(['times', 'times', 'nest', 'unrolled', 'stim', 'retained', 'duration_only'])})
     return out
 
 
@@ -173,6 +180,12 @@ def play(ctx, params, with_observations: bool, g_out, g_in, stack):
             s.add(co.Wait(0, duration_strategy=FixedDurationStrategy(ctx.real(f'd_sub{extra}a', lo=0, reuse=True))))
             s.add(co.Wait(1, duration_strategy=FixedDurationStrategy(ctx.real(f'd_sub{extra}b', lo=0, reuse=True))))
             c.add(s)
+        elif ev == 'grow':
+            # the user extends a nested block through the handle add() returned for it
+            subs_ = [n for n in built.nodes if n.is_sub]
+            if subs_:
+                extra += 1
+                subs_[0].obj.add(co.Wait(0, duration_strategy=FixedDurationStrategy(ctx.real(f'd_grow{extra}', lo=0, reuse=True))))
         elif ev == 'apply':
             holder['circuit'] = c.apply_modifiers()
         elif ev == 'flatten':
@@ -199,7 +212,10 @@ def play(ctx, params, with_observations: bool, g_out, g_in, stack):
 def _final(ctx, params, c, final, retained):
     which = params.get('final', 'times')
     # exactly one kind of final observation per run, so that no final observation can mask (or repair) another one
-    if which == 'retained':
+    if which == 'duration_only':
+        # no listing: only the duration and the start/end of the top-level entries the user holds
+        final['duration_only'] = [(c.duration, c.duration)] + [(n.obj.start_time, n.obj.end_time) for n in final['built'].nodes]
+    elif which == 'retained':
         # no new listing: times are read through the operation objects obtained right after construction
         final['retained'] = [(o.start_time, o.end_time) for o in retained]
     elif which == 'nest':
@@ -247,7 +263,7 @@ def run(ctx, params):
         return any(value_equal_siblings(k) for k in kids)
     info = {'events': params['events'], 'final': params.get('final', 'times'),
             'value_equal_sibling_sub_circuits': bool(value_equal_siblings(fa['circuit'].circuit_structure))}
-    for key in ('times', 'nested', 'unrolled', 'retained'):
+    for key in ('times', 'nested', 'unrolled', 'retained', 'duration_only'):
         if key in fa:
             ctx.observe(f'{key}.with', fa[key])
             ctx.observe(f'{key}.without', fb[key])
@@ -262,6 +278,8 @@ def run(ctx, params):
         ctx.check('C03.stim', fa['stim'] == fb['stim'], dict(info, with_observations=fa['stim'], without=fb['stim']))
     if 'nested' in fa:
         ctx.check('C03.nested_copy', pairs_equal(fa['nested'], fb['nested']), dict(info, with_observations=fa['nested'], without=fb['nested']))
+    if 'duration_only' in fa:
+        ctx.check('C03.duration_only', pairs_equal(fa['duration_only'], fb['duration_only']), dict(info, with_observations=fa['duration_only'], without=fb['duration_only']))
     if 'retained' in fa:
         ctx.check('C03.retained', pairs_equal(fa['retained'], fb['retained']), dict(info, with_observations=fa['retained'], without=fb['retained']))
     if 'unrolled' in fa:
@@ -270,7 +288,7 @@ def run(ctx, params):
         return
     # ---- "a time reported after a duration setting changed reflects the change" ------------------------------------------------------
     # fresh build of the *same program* under the final settings, no history at all (only for histories without structural mutations)
-    if not any(e in ('add', 'addsub', 'apply', 'flatten') for e in params['events']):
+    if not any(e in ('add', 'addsub', 'grow', 'apply', 'flatten') for e in params['events']):
         final_globals = g_in if fa['inside_override'] else g_out
         with final_globals.override():
             built = cm.build(ctx, params['prog'])
